@@ -604,6 +604,8 @@ func runC04(c *Ctx, r *Report) {
 	importRules(c, r, "C02", []string{"R-C02.7"}, "R-C04.11")
 	r.Doc("R-C04.12", "every addition to the skip references of the entry Append builds is controlled by a comparison with the predecessor list (an addition outside that filter lists a head both as predecessor and as reference)")
 	referencesSkipThePredecessors(c, r, "R-C04.12")
+	r.Doc("R-C04.13", "the list Append hands to the new entry as Next is never resliced with a bound: every head gathered into it stays a predecessor")
+	predecessorListNotCut(c, r, "R-C04.13")
 	r.Doc("R-C04.8", "the appended entry becomes the single head whatever it contains: the head-set constructor files every existing entry (adopted from C02)")
 	importRules(c, r, "C02", []string{"R-C02.11"}, "R-C04.8")
 	loopsComplete(c, r, "R-C04.7", func(fn *Fn) bool {
